@@ -26,7 +26,7 @@ from engine.srcmatch import U
 from engine.fold import EnumMember, Folder
 from engine.kvtext import conversion_of, emits_in, flatten as kv_flatten
 from engine.model import class_fields, AnalysisError, Program, base_names, dotted, mro, walk_no_nested
-from engine.wire import Atom, Config, Extractor, atoms, by_tag, byte_size, expand, flatten, simplify, tags, value_count
+from engine.wire import UNKNOWN as UNKNOWN_, Atom, Config, Extractor, atoms, by_tag, byte_size, expand, flatten, simplify, tags, value_count
 from rules.c10 import views_of
 from rules.c11_link import accessor_table, link_records, records, sig, split_field_check, string_pool_check
 
@@ -630,6 +630,19 @@ def run(ctx: Any, prog: Program) -> None:
             wi = Extractor(bsp, fold, Config(dict(vals), layout), 'BSP', inline).extract(wr)
             rfns = [rd] + [inline[k] for k in inline if k in U(rd)]
             link_records(ctx, 'C11.L3', bsp, v, records(ri), records(wi), rfns, wr, f'BSP._lmp_write_{v}')
+            # ... and under every other layout whose records differ from the standard ones (a branch on the layout that packs another expression)
+            std_sigs = ([sig(r) for r in records(ri)], [U(s_.expr) if s_.expr is not None else None for r in records(wi) for s_ in r], [s_.name for r in records(ri) for s_ in r])
+            for cname2, (vals2, layout2) in BSP_CONFIGS.items():
+                if cname2 == 'standard-v20':
+                    continue
+                try:
+                    ri2 = Extractor(bsp, fold, Config(dict(vals2), layout2), 'BSP', inline).extract(rd)
+                    wi2 = Extractor(bsp, fold, Config(dict(vals2), layout2), 'BSP', inline).extract(wr)
+                    sigs2 = ([sig(r) for r in records(ri2)], [U(s_.expr) if s_.expr is not None else None for r in records(wi2) for s_ in r], [s_.name for r in records(ri2) for s_ in r])
+                except AnalysisError:
+                    continue            # L1 reports what cannot be extracted under this layout
+                if sigs2 != std_sigs:
+                    link_records(ctx, 'C11.L3', bsp, f'{v} [{cname2}]', records(ri2), records(wi2), rfns, wr, f'BSP._lmp_write_{v}')
         # L2: arity (configuration independent: check against every variant the atom may use)
         for kind, fn in (('read', rd), ('write', wr)):
             items = Extractor(bsp, fold, Config({}, None), 'BSP', inline).extract(fn)
@@ -985,6 +998,65 @@ def run(ctx: Any, prog: Program) -> None:
                           text=f'{qn}: `{nm}` made before the record loop is only accumulated into')
     if n_hoist < 10:
         raise AnalysisError(f'L29: only {n_hoist} accumulators found in the readers\' record loops (expected at least 10)')
+    # ---- L30: a slot is written merged exactly where it is read split ------------------------------------------------------------------------
+    # `leaf.area << K | leaf.flags.value` puts two fields into one slot; the reader takes it apart with `>> K` and `& mask`.  Both sit under
+    # tests on the layout (VitaminSource stores the two fields separately).  For every layout the merge must be what is packed iff the split
+    # is what the reader does - a merged value packed for a layout whose reader takes the slot whole ends up in one field.
+    ctx.rule('C11.L30', 'a slot is packed as `a << K | b` under exactly the layouts for which the reader splits it with `>> K`', floor=5)
+
+    def _active(node: ast.AST, fn_: ast.AST, ex_: Extractor) -> Optional[bool]:
+        ch_: ast.AST = node
+        an_ = bsp.parents.get(ch_)
+        while an_ is not None and an_ is not fn_:
+            if isinstance(an_, ast.If):
+                in_test = any(ch_ is x for x in ast.walk(an_.test))
+                if not in_test:
+                    t_ = ex_.ev(an_.test)
+                    if t_ is UNKNOWN_:
+                        return None
+                    in_body = any(ch_ is b for b in an_.body)
+                    if bool(t_) != in_body:
+                        return False
+            ch_, an_ = an_, bsp.parents.get(an_)
+        return True
+    n30 = 0
+    for qn, wfn in ms.items():
+        if not qn.startswith('_lmp_write_') or ('_lmp_read_' + qn[len('_lmp_write_'):]) not in ms:
+            continue
+        rfn = ms['_lmp_read_' + qn[len('_lmp_write_'):]]
+        merges = [b for b in ast.walk(wfn) if isinstance(b, ast.BinOp) and isinstance(b.op, ast.BitOr) and isinstance(b.left, ast.BinOp) and isinstance(b.left.op, ast.LShift)
+                  and isinstance(b.left.left, ast.Attribute) and isinstance(b.left.left.value, ast.Name)]
+        splits = [a for a in ast.walk(rfn) if isinstance(a, ast.Assign) and isinstance(a.value, ast.BinOp) and isinstance(a.value.op, ast.RShift) and isinstance(a.value.left, ast.Name)]
+        if not merges:
+            continue
+        ctx.shape('C11.L30', len(merges) == 1 and len(splits) == 1, bsp, merges[0], f'BSP.{qn}: {len(merges)} merged slot(s) but {len(splits)} split(s) with `>>` in the reader', func=f'BSP.{qn}', text=f'{qn[11:]}: merged slot')
+        if len(merges) != 1 or len(splits) != 1:
+            continue
+        # where the merged value is *packed*: the pack call / the statement that uses it (through a list or tuple local it is an element of)
+        use_nodes: List[ast.AST] = [merges[0]]
+        holder = bsp.parents.get(merges[0])
+        while holder is not None and not isinstance(holder, ast.stmt):
+            holder = bsp.parents.get(holder)
+        if isinstance(holder, (ast.Assign, ast.AnnAssign)):
+            tg = holder.targets[0] if isinstance(holder, ast.Assign) else holder.target
+            if isinstance(tg, ast.Name):
+                use_nodes = [c for c in ast.walk(wfn) if isinstance(c, ast.Call) and (dotted(c.func) or '').endswith('pack') and any(isinstance(x, ast.Name) and x.id == tg.id for a_ in c.args for x in ast.walk(a_))] or use_nodes
+        for cname3, (vals3, layout3) in BSP_CONFIGS.items():
+            ex3 = Extractor(bsp, fold, Config(dict(vals3), layout3), 'BSP', inline)
+            ex3.extract(wfn)
+            w_act = [(_active(u, wfn, ex3) and _active(merges[0], wfn, ex3)) for u in use_nodes]
+            ex4 = Extractor(bsp, fold, Config(dict(vals3), layout3), 'BSP', inline)
+            ex4.extract(rfn)
+            r_act = _active(splits[0], rfn, ex4)
+            if r_act is None or any(a is None for a in w_act):
+                ctx.shape('C11.L30', False, bsp, merges[0], f'BSP.{qn} [{cname3}]: a test around the merged slot or its split is not decided by the layout', func=f'BSP.{qn}', text=f'{qn[11:]} [{cname3}]: merged iff split')
+                continue
+            n30 += 1
+            ctx.check('C11.L30', any(w_act) == r_act, bsp, merges[0], f'layout {cname3}: BSP.{qn} {"packs" if any(w_act) else "does not pack"} `{U(merges[0])[:50]}` while the reader {"splits" if r_act else "does not split"} that slot '
+                      f'(`{U(splits[0])[:40]}`): the slot holds both fields merged but is read back as one of them' if any(w_act) else 'the slot is read split although it was written plain', func=f'BSP.{qn}',
+                      text=f'{qn[11:]} [{cname3}]: merged iff split')
+    if n30 < 5:
+        raise AnalysisError(f'L30: {n30} layout instances of a merged slot found (the area/flags slot of the leaf lump under 5 layouts confirmed by hand)')
     # ---- L15: auxiliary lumps -----------------------------------------------------------------------------------------------
     n_aux = 0
     for qn, fn in ms.items():
@@ -1160,6 +1232,7 @@ def run(ctx: Any, prog: Program) -> None:
 
 
 MUTANTS = [
+    {'id': 'vitamin_leaf_area_packed_merged', 'file': 'bsp.py', 'find': "                    leaf.contents.value, leaf.cluster_id, leaf.area,\n", 'replace': "                    leaf.contents.value, leaf.cluster_id, (leaf.area << self.lump_layout['LEAF_AREA_OFFSET'] | leaf.flags.value),\n", 'expect': 'C11.L30', 'refuse_ok': True, 'note': 'round 12: a second merge - L30 declines (the seed C10-X is the detected form)'},
     {'id': 'static_prop_scaling_hoisted', 'file': 'bsp.py', 'find': "        for i in range(prop_count):\n            start = static_lump.tell()", 'replace': "        no_scaling = Vec(1.0, 1.0, 1.0)\n        for i in range(prop_count):\n            start = static_lump.tell()", 'extra': [{'file': 'bsp.py', 'find': "            scaling = Vec(1.0, 1.0, 1.0)\n", 'replace': "            scaling = no_scaling\n"}], 'expect': 'C11.L29', 'note': 'round 11: hoisted per-record Vec'},
     {'id': 'bmodel_phys_index_by_rank', 'file': 'bsp.py', 'find': "        for i, model in enumerate(model_list):\n            yield struct.pack(\n                '<9fiii',", 'replace': "        for i, model in enumerate(model_list, 1):\n            yield struct.pack(\n                '<9fiii',", 'expect': 'C11.L28', 'note': 'round 11: owner index of the physics block'},
     {'id': 'prop_lighting_origin_defaulted_by_flag', 'file': 'bsp.py', 'find': "            flags = StaticPropFlags(flags)\n", 'replace': "            flags = StaticPropFlags(flags)\n            if StaticPropFlags.HAS_LIGHTING_ORIGIN not in flags:\n                lighting_origin = origin.copy()\n", 'expect': 'C11.L27'},
